@@ -55,7 +55,7 @@ def check(name, props=None):
         if rc != 0:
             print("BENIGN %-10s cannot apply patch: %s" % (name, o[-300:]))
             return
-        rc, o = sh("go build ./...", cwd=sdir)
+        rc, o = sh("go build -trimpath ./...", cwd=sdir)
         if rc != 0:
             print("BENIGN %-10s does not build: %s" % (name, o[-600:]))
             return
